@@ -250,6 +250,47 @@ func runC05(w *World, r *Report) {
 	foldsReadPartiesAndAmountOnly(w, r, "folds-read-parties-and-amount-only")
 	// a transfer that is folded into the checkpoint while its vertex stays live is counted twice: value is created
 	checkpointCountsOnlyTheWalked(w, r, "checkpoint-counts-only-the-walked")
+	// the verdict of the arithmetic is what admits a transfer: once validateLeaf has started to account for a transfer (the
+	// first pourFunds), it reports success only behind checkHasSufficientfunds == nil — a shortcut that answers from part of
+	// the account (the checkpoint alone, the tip alone) lets the same funds be spent again
+	r.rule("validation-succeeds-only-behind-the-sufficiency-verdict", "in validateLeaf every success return that is reachable from the first pourFunds call lies behind the success edge of checkHasSufficientfunds applied to the very accumulators the pourFunds calls fill", 1)
+	if vl := w.Func("accountant", "AccountingBook", "validateLeaf"); vl != nil {
+		pours := deepCalls(vl, byName(nPourFunds), 1)
+		checks := callsTo(vl, nCheckFunds)
+		if len(pours) == 0 || len(checks) == 0 {
+			r.bad("validation-succeeds-only-behind-the-sufficiency-verdict", "validateLeaf", w.Pos(vl.Pos()), "validateLeaf pours funds and asks checkHasSufficientfunds", fmt.Sprintf("pourFunds calls=%d checkHasSufficientfunds calls=%d", len(pours), len(checks)))
+		} else {
+			// the verdict that counts is the one over the accumulators the pours fill
+			accs := map[string]bool{}
+			for _, d := range pours {
+				_, pa := callArgs(d.c)
+				if len(pa) >= 4 {
+					accs[d.path(pa[2])+"|"+d.path(pa[3])] = true
+				}
+			}
+			var okE []Edge
+			for _, c := range checks {
+				_, ca := callArgs(c)
+				if len(ca) >= 2 && accs[pathOf(ca[0])+"|"+pathOf(ca[1])] {
+					okE = append(okE, passErrNil(c)...)
+				}
+			}
+			bad := ""
+			for _, d := range pours {
+				var site ssa.Instruction = d.c.(ssa.Instruction)
+				if len(d.chain) > 0 {
+					site = d.chain[0].(ssa.Instruction)
+				}
+				walkFrom(site, nil, edgeSet(okE), func(x ssa.Instruction) bool {
+					if ret, isRet := x.(*ssa.Return); isRet && successReturn(ret) && bad == "" {
+						bad = fmt.Sprintf("the success return at %s is reachable from pourFunds at %s without crossing checkHasSufficientfunds == nil", lineOf(w, ret), lineOf(w, site))
+					}
+					return false
+				})
+			}
+			r.check(bad == "" && len(okE) > 0, "validation-succeeds-only-behind-the-sufficiency-verdict", "validateLeaf", w.Pos(vl.Pos()), "no success without the sufficiency verdict once accounting has begun", bad)
+		}
+	}
 	// ---- 0b. the operands are worked on in place; a copy back into an operand is the undo of a failure, nothing else
 	r.rule("restore-only-on-failure", "in Supply / Transfer a copyFrom into an operand is followed only by error returns: the success path has updated the operands in place (a compute-on-copies-then-commit scheme overwrites one result with the other when both operands are the same object)", 2)
 	for _, spec := range [][2]string{{"Melange", "Supply"}, {"", "Transfer"}} {
@@ -619,6 +660,80 @@ func dagWriters(w *World) map[string]bool {
 
 func runC06(w *World, r *Report) {
 	r.NotDecided = []string{"numerical equality of the result with the reference sum", "agreement across nodes holding the same vertex set", "which tip is chosen when several exist (map iteration order)"}
+	// a balance is the sum over ALL ancestors or an error: a step of the query that failed (the walk was stopped, a vertex
+	// could not be read or poured) never ends in a number
+	r.rule("balance-query-fails-when-a-step-fails", "in CalculateBalance (and the literals in it) no success return is reachable from the failure edge of a repo call or spice operation that returns an error; an error result that is never tested is a violation too", 3)
+	if cb := w.Func("accountant", "AccountingBook", "CalculateBalance"); cb != nil {
+		for _, g := range WithAnon(cb) {
+			instrsOf(g, func(in ssa.Instruction) {
+				c, ok := in.(ssa.CallInstruction)
+				if !ok {
+					return
+				}
+				if _, isDefer := in.(*ssa.Defer); isDefer {
+					return
+				}
+				cal := c.Common().StaticCallee()
+				if cal == nil || !isRepoFunc(cal) || errIndexOfSig(cal.Signature) < 0 {
+					return
+				}
+				key := "CalculateBalance/" + shortCallee(c)
+				fes := failErrNonNil(c)
+				if len(fes) == 0 {
+					ev := errResult(c)
+					used := false
+					if ev != nil && ev.Referrers() != nil {
+						for _, ref := range *ev.Referrers() {
+							if _, dbg := ref.(*ssa.DebugRef); !dbg {
+								used = true
+							}
+						}
+					}
+					// propagated as the function's own result is fine
+					r.check(used, "balance-query-fails-when-a-step-fails", key, lineOf(w, c), "the error of this step is looked at", "error result discarded")
+					return
+				}
+				// an error that is told apart by name (err == ErrBalanceUnavailable: no checkpoint yet) is a decision, not a drop
+				ev := errResult(c)
+				var named []Edge
+				isSentinel := func(v ssa.Value) bool {
+					if u, ok := v.(*ssa.UnOp); ok {
+						if gl, ok := u.X.(*ssa.Global); ok {
+							return strings.HasPrefix(gl.Name(), "Err")
+						}
+					}
+					return false
+				}
+				for _, b := range g.Blocks {
+					for i := range b.Succs {
+						for _, ft := range edgeFacts(Edge{b, i}) {
+							if ft.kind == fEq && (sameVal(ft.x, ev) && isSentinel(ft.y) || sameVal(ft.y, ev) && isSentinel(ft.x)) {
+								named = append(named, Edge{b, i})
+							}
+							if ft.kind == fTrue {
+								if ic, ok := strip(ft.x).(*ssa.Call); ok && calleeName(ic) == "errors.Is" && len(ic.Call.Args) == 2 && sameVal(ic.Call.Args[0], ev) && isSentinel(ic.Call.Args[1]) {
+									named = append(named, Edge{b, i})
+								}
+							}
+						}
+					}
+				}
+				bad := 0
+				for _, fe := range fes {
+					walkFrom(nil, fe.To(), edgeSet(named), func(x ssa.Instruction) bool {
+						if ret, isRet := x.(*ssa.Return); isRet {
+							if g == cb && successReturn(ret) {
+								bad++
+							}
+							return true
+						}
+						return false
+					})
+				}
+				r.check(bad == 0, "balance-query-fails-when-a-step-fails", key, lineOf(w, c), "a failure of this step makes the query fail", fmt.Sprintf("%d success returns of the query are reachable from the failure edge of this step: a partial sum is reported as the balance", bad))
+			})
+		}
+	}
 	// the balance is a walk over the ancestors: the edges of an admitted vertex are the ancestry
 	everyParentLinked(w, r, "every-looked-up-parent-is-linked")
 	foldsReadPartiesAndAmountOnly(w, r, "folds-read-parties-and-amount-only")
@@ -1613,7 +1728,6 @@ func checkpointCountsWhatBalanceCounts(w *World, r *Report, rule string) {
 	r.check(len(notTransfer) > 0 && skipped == 0, rule, "nextVertex/only-non-transfers-skipped", w.Pos(fn.Pos()), "a vertex is left out of the checkpoint only when its transaction is not a spice transfer", fmt.Sprintf("%d successful returns (e.g. %s) are reachable without updateFounds and without the IsSpiceTransfer() == false edge; non-transfer edges found: %d", skipped, where, len(notTransfer)))
 }
 
-
 // drainSinkPrivate: the sink handed to Drain / the receiving side of Transfer in ledger accounting belongs to that one
 // computation: not package-level state, and inside a loop not a variable that outlives the iteration (Transfer refuses
 // with an overflow error when sink + amount does not fit — a sink that accumulates makes a later Drain fail or, where
@@ -1653,7 +1767,6 @@ func drainSinkPrivate(w *World, r *Report, rule string) {
 		}
 	}
 }
-
 
 // carryThresholdInclusive: a supplementary part of exactly 10^18 is one whole unit: every comparison of a quantity with
 // the constant 10^18 in the spice arithmetic splits at "< 10^18" / ">= 10^18" (a strict "> 10^18" leaves 10^18 itself
@@ -1874,4 +1987,14 @@ func foldsReadPartiesAndAmountOnly(w *World, r *Report, rule string) {
 		visit(pf, 0)
 		r.check(other == "", rule, shortFn(pf), w.Pos(pf.Pos()), "the fold looks at the parties and the amount only", other)
 	}
+}
+
+// errIndexOfSig: index of the (last) error result of a signature, -1 when there is none.
+func errIndexOfSig(sig *types.Signature) int {
+	for i := sig.Results().Len() - 1; i >= 0; i-- {
+		if isErrorType(sig.Results().At(i).Type()) {
+			return i
+		}
+	}
+	return -1
 }
